@@ -41,6 +41,10 @@ def _needs_quote(name: str) -> bool:
 	- It parses as a number
 	- It collides with Vector/Table reserved method names
 	"""
+	# A name need not be a string (Table({1: [...]})): show it as Python would
+	if not isinstance(name, str):
+		return True
+
 	# Always quote empty names
 	if not name:
 		return True
@@ -90,6 +94,10 @@ def _format_column(col, max_preview: int | None = None) -> List[str]:
 		elif col._dtype and col._dtype.kind is float:
 			if isinstance(v, float) and (v != v or v in (float('inf'), float('-inf'))):
 				out.append(str(v))  # nan / inf / -inf have no integer value to compare with
+			elif isinstance(v, int) and not isinstance(v, bool):
+				# an int held by a float column: exact digits (float formatting would
+				# round beyond 2**53 and overflow beyond the float range)
+				out.append(f"{v}.0")
 			else:
 				out.append(f"{v:.1f}" if v == int(v) else f"{v:g}")
 		elif col._dtype and col._dtype.kind is int:
@@ -173,7 +181,7 @@ def _is_structural_change(display_name: str, sanitized_name: str) -> bool:
 		return True
 	
 	# If lowercasing the display name equals sanitized, it's just case change
-	if display_name.lower() == sanitized_name:
+	if isinstance(display_name, str) and display_name.lower() == sanitized_name:
 		return False
 	
 	# Otherwise there was a structural transformation
